@@ -724,19 +724,23 @@ def j_c18(sh, a, b):
         op = sh['ops'][i]
         if op in ('STR a', 'STR b', 'DUMP a', 'DUMP b', 'STR da', 'STR db', 'DUMP da', 'DUMP db'):
             out[op] = (i, sh['go'][i])
-    # the wire-decoded pair is a C18 pair only if it meets the property's hypothesis: decoded, and differing in nothing
-    # but the bytes of equally long credentials (a user name over 65 535 bytes, say, does not survive the wire)
+    # the wire-decoded pair: two packets decoded from frames that differ only in the bytes of equally long credentials.
+    # That is what the frames of a and b are *when every value is within MQTT's limits*; a user name of more than
+    # 65 535 bytes, say, does not survive the wire (its length prefix wraps), what comes back is decoded from a frame
+    # whose structure depends on the credential bytes, and the pair is outside the property's quantifier.
+    inlimit = True
+    for i in range(a, b):
+        t = sh['ops'][i].split()
+        if len(t) >= 4 and t[0] == 'SET':
+            for x in t[3:]:
+                if re.fullmatch(r'[0-9a-f]+', x) and len(x) // 2 > 65535:
+                    inlimit = False
     rdp = {}
     for i in range(a, b):
         t = sh['ops'][i].split()
-        if len(t) == 3 and t[0] == 'RDP' and sh['go'][i].startswith('rdp '):
-            kv = dict(x.partition('=')[::2] for x in sh['go'][i][4:].partition(' ')[2].split(';'))
-            rdp[t[2]] = kv
-    decoded_pair_ok = False
-    if 'da' in rdp and 'db' in rdp:
-        ka, kb = rdp['da'], rdp['db']
-        decoded_pair_ok = set(ka) == set(kb) and all(
-            (len(ka[k]) == len(kb[k]) and len(ka[k]) > 1) if k in ('Username', 'Password') else ka[k] == kb[k] for k in ka)
+        if len(t) == 3 and t[0] == 'RDP' and sh['go'][i].startswith('rdp ') and sh['go'][i] != 'rdp err':
+            rdp[t[2]] = True
+    decoded_pair_ok = inlimit and 'da' in rdp and 'db' in rdp
     for tag in ('STR', 'DUMP'):
         for x, y, how in ((' a', ' b', 'API-built'), (' da', ' db', 'wire-decoded')):
             if how == 'wire-decoded' and not decoded_pair_ok:
